@@ -1,6 +1,7 @@
 import Uft.Lemmas.Mcount
 import Uft.Lemmas.McountCore
 import Uft.Lemmas.McountRestore
+import Uft.Lemmas.McountUnwind
 import Uft.Lemmas.FstackRecord
 import Uft.Lemmas.StreamShape
 /- C05 — Record-time filters and triggers select exactly the documented calls. -/
@@ -135,5 +136,139 @@ example :
     spec (RCfg.ofRecord cfg) false cs =
       [⟨10, 0, 0, 1⟩, ⟨20, 0, 1, 2⟩, ⟨40, 1, 1, 2⟩, ⟨60, 1, 0, 1⟩] := by
   decide
+
+/-!
+Part 4: frames that hold filter state and are left by something other than their return — a C++
+exception unwinds them (`unwindExc` = the loop of mcount_rstack_rehook_exception: every dropped frame
+goes through mcount_exit_filter_record), a longjmp abandons them (`jmpRestore` =
+restore_jmpbuf_rstack).  "The filter state after a function returns equals the state before it was
+called, so a filter hit never leaks into later sibling calls" has to hold for these exits too,
+otherwise an exception passing through a `-N` function switches the rest of the trace off.
+-/
+
+/-- **State restoration across exception unwinding**: for every stack (any thread state `s`), every chain
+    of nested calls entered from it (each after any forest of completed calls; `runOpen`) and every
+    trigger table / option set, after the frames of the chain have been dropped the way
+    mcount_rstack_rehook_exception drops them the filter state (in/out counts, depth, max-depth, time,
+    size, record index, saved values of the frames below) equals the state before the outermost of the
+    unwound calls was entered. -/
+theorem c05_state_restored_unwind (cfg : Cfg) (hf : cfg.fast = false) (hfix : cfg.f4fixed = true)
+    (hfin : ∀ f, (cfg.trig f).finish = false) (p : List OpenCall) (s : St) (ho : s.over = 0)
+    (ts : List Nat) (hl : ts.length = (runOpen cfg .pg s p).2) :
+    core (unwindExc cfg (runOpen cfg .pg s p).1 ts) = core s :=
+  (restored_unwind cfg hf hfix hfin p s ts ho hl).1
+
+/-- Dropping frames by exception unwinding is the sequence of their exit hooks (the whole thread state:
+    also the records written) — for every state, no hypothesis on how it was reached. -/
+theorem c05_unwind_is_return (cfg : Cfg) (hf : cfg.fast = false) (ts : List Nat) (s : St) (ho : s.over = 0) :
+    unwindExc cfg s ts = ts.foldl (exit cfg) s :=
+  unwindExc_eq_exits cfg hf ts s ho
+
+/-- **A history with an exception is recorded as the history in which the unwound calls returned** when
+    their frames were dropped (`closePath p ts` is that call tree): same records, same state. -/
+theorem c05_exception_trace_eq_returns (cfg : Cfg) (hf : cfg.fast = false) (hfix : cfg.f4fixed = true)
+    (hfin : ∀ f, (cfg.trig f).finish = false) (p : List OpenCall) (ts : List Nat) (s : St) (ho : s.over = 0)
+    (hl : ts.length = p.length) :
+    unwindExc cfg (runOpen cfg .pg s p).1 (openTimes cfg .pg s p ts) = runCalls cfg .pg s (closePath p ts) :=
+  unwind_eq_returns cfg hf hfix hfin p ts s ho hl
+
+open Uft.Fstack in
+/-- … so **the record stream stays well nested and is the documented selection** of that history, under
+    any -F / -N / -D / -t (the class `FND`; same hypotheses on the closed history as
+    `c05_records_documented_selection`). -/
+theorem c05_exception_stream_well_nested (cfg : Cfg) (h : FND cfg) (hfix : cfg.f4fixed = true)
+    (hfin : ∀ f, (cfg.trig f).finish = false) (hf : cfg.fast = false)
+    (p : List OpenCall) (ts : List Nat) (hl : ts.length = p.length) (n : Nat)
+    (hh : (closePath p ts).height ≤ cfg.maxStack) (hn : Calls.allDurLe n (closePath p ts)) :
+    (unwindExc cfg (runOpen cfg .pg (St.init cfg) p).1 (openTimes cfg .pg (St.init cfg) p ts)).out =
+      spec (RCfg.ofRecord cfg) (!cfg.s4fixed) (closePath p ts) ∧
+    WellNested (unwindExc cfg (runOpen cfg .pg (St.init cfg) p).1 (openTimes cfg .pg (St.init cfg) p ts)).out := by
+  rw [unwind_eq_returns cfg hf hfix hfin p ts (St.init cfg) rfl hl]
+  exact ⟨record_out cfg h .pg _ n hh hn, c05_filtered_stream_well_nested cfg h .pg _ n hh hn⟩
+
+/-- `-N f1` -/
+def cfgN1 : Cfg := { trig := fun f => if f = 1 then { filter := some false } else {} }
+
+/-- non-vacuity of `c05_state_restored_unwind`: under `-N f1`, f0 { f1 { f2 } } with the exception thrown
+    in f2 and caught in f0: two frames are unwound (f2 has none: it is rejected while out_count > 0 …
+    the hook pushes nothing), out_count is 1 before and 0 after -/
+example :
+    let p : List OpenCall := [⟨1, 1010, .nil⟩, ⟨2, 1020, .nil⟩]
+    let s0 := (entry cfgN1 .pg (St.init cfgN1) 0 1000).1
+    s0.over = 0 ∧ (runOpen cfgN1 .pg s0 p).2 = 1 ∧ (runOpen cfgN1 .pg s0 p).1.filt.outCount = 1 ∧
+    (unwindExc cfgN1 (runOpen cfgN1 .pg s0 p).1 [1030]).filt.outCount = 0 := by decide
+
+/-- main f0 calls setjmp, then f1 (the `-N` function) which calls longjmp; back in f0 -/
+def ljRun (fx : NLFix) : St :=
+  let s0 := (entry cfgN1 .pg (St.init cfgN1) 0 1000).1
+  let e := (pltEntry cfgN1 s0 101 1010 false).1
+  let sv := jmpSave e
+  let s1 := exit cfgN1 e 1010
+  let s2 := (entry cfgN1 .pg s1 1 1020).1
+  let s3 := (pltEntry cfgN1 s2 102 1030 true).1
+  exit cfgN1 (jmpRestore fx s3 sv) 1030
+
+/-- finding C05-LONGJMP-FILTER-LEAK (pre-fix witness): restore_jmpbuf_rstack as found leaves the
+    out_count of the abandoned `-N` frame behind (every later call of the thread is rejected); with the
+    repair (`ljCounts`) the filter state is the one f0 had before it called setjmp. -/
+theorem c05_prefix_longjmp_leak_witness :
+    (ljRun { ljCounts := false }).filt.outCount = 1 ∧
+    (ljRun { ljCounts := true }).filt.outCount = 0 ∧
+    core (ljRun { ljCounts := true }) = core (entry cfgN1 .pg (St.init cfgN1) 0 1000).1 := by decide
+
+/-- **State restoration across longjmp** (restore_jmpbuf_rstack with the repair of C05-LONGJMP-FILTER-LEAK):
+    from any thread state `s0`, setjmp — a library call — is hooked and returns; then any chain of nested
+    calls is entered (each after any forest of completed calls: `runOpen`) and the innermost calls longjmp.
+    After restore_jmpbuf_rstack and the second return of setjmp the filter state (counts, depth, max-depth,
+    time, size, record index, the frames below) is the one `s0` had: no -F / -N / depth= / time= / size= hit
+    of an abandoned function leaks into what follows the landing.  For every trigger table and option set. -/
+theorem c05_state_restored_longjmp (cfg : Cfg) (hf : cfg.fast = false) (hfix : cfg.f4fixed = true)
+    (hfin : ∀ f, (cfg.trig f).finish = false) (s0 : St) (ho : s0.over = 0) (sj t0 t1 : Nat)
+    (hsj : (pltEntry cfg s0 sj t0 false).2 = true) (p : List OpenCall) (lj t2 t3 : Nat) (fl : Bool)
+    (hlj : (pltEntry cfg (runOpen cfg .pg (exit cfg (pltEntry cfg s0 sj t0 false).1 t1) p).1 lj t2 fl).2 = true) :
+    core (exit cfg (jmpRestore { ljCounts := true }
+      (pltEntry cfg (runOpen cfg .pg (exit cfg (pltEntry cfg s0 sj t0 false).1 t1) p).1 lj t2 fl).1
+      (jmpSave (pltEntry cfg s0 sj t0 false).1)) t3) = core s0 :=
+  restored_longjmp cfg hf hfix hfin s0 ho sj t0 t1 hsj p lj t2 t3 fl { ljCounts := true } rfl hlj
+
+/-- non-vacuity: the history of `ljRun` (`-N f1`; f0 calls setjmp, then f1, which calls longjmp) meets the
+    hypotheses: both library calls are hooked -/
+example :
+    let s0 := (entry cfgN1 .pg (St.init cfgN1) 0 1000).1
+    s0.over = 0 ∧ (pltEntry cfgN1 s0 101 1010 false).2 = true ∧
+    (pltEntry cfgN1 (runOpen cfgN1 .pg (exit cfgN1 (pltEntry cfgN1 s0 101 1010 false).1 1010) [⟨1, 1020, .nil⟩]).1
+      102 1030 true).2 = true := by decide
+
+/-- a hooked library call (setjmp, longjmp, any PLT function) acts on the filter state as the
+    -finstrument-functions hook does: a frame is pushed also for a rejected call -/
+theorem c05_library_call_state (cfg : Cfg) (hf : cfg.fast = false) (s : St) (a t : Nat) (fl : Bool)
+    (hfin : (cfg.trig a).finish = false) (htook : (pltEntry cfg s a t fl).2 = true) :
+    core (pltEntry cfg s a t fl).1 = core (entry cfg .cyg s a t).1 := by
+  rw [core_pltEntry cfg hf s a t fl hfin htook, core_entry_cyg cfg hf s a t hfin]
+
+/-- f0 { f2 { f1 { f5 throws } } }: the exception unwinds f5 and f1; the landing pad of f2 calls f3 (a destructor) -/
+def padRun (cfg : Cfg) (fx : NLFix) : St × Bool :=
+  let s := (entry cfg .pg (St.init cfg) 0 1000).1
+  let s := (entry cfg .pg s 2 1010).1
+  let s := (entry cfg .pg s 1 1020).1
+  let s := (entry cfg .pg s 5 1025).1
+  let r := padEntryPg cfg fx s 3 1030 [1030, 1030]
+  (r.1, r.2.1)
+
+/-- finding C05-EXC-PAD-FILTER (pre-fix witness): as found the filter check of a call made from a landing
+    pad runs before the unwound frames are dropped.  Under `-D 4` the destructor (a child of f2, depth 3)
+    is rejected because the dead f5 sits at depth 4; under `-D 5` it is taken, but the depth saved for its
+    exit is the dead callee's: after it returned f2 goes on at filter depth 4 instead of 2, so f2's later
+    callees lose their children.  With the repair (`padOrder`) it is taken and f2 goes on at depth 2. -/
+theorem c05_prefix_exc_pad_witness :
+    (padRun { depthOpt := 4 } { padOrder := false }).2 = false ∧
+    (padRun { depthOpt := 4 } { padOrder := true }).2 = true ∧
+    (exit { depthOpt := 5 } (padRun { depthOpt := 5 } { padOrder := false }).1 1040).filt.depth = 4 ∧
+    (exit { depthOpt := 5 } (padRun { depthOpt := 5 } { padOrder := true }).1 1040).filt.depth = 2 := by decide
+
+/-- with the repaired order a call from a landing pad is, by definition, the ordinary entry hook run after
+    the unwound frames were dropped — so `c05_state_restored_unwind` describes the state it is filtered in -/
+theorem c05_pad_entry_repaired (cfg : Cfg) (s : St) (addr now : Nat) (ts : List Nat) :
+    (padEntryPg cfg { padOrder := true } s addr now ts).1 = (entry cfg .pg (unwindExc cfg s ts) addr now).1 := rfl
 
 end Uft.C05
